@@ -348,6 +348,15 @@ impl<H: Host> ZXController<H> {
         }
     }
 
+    /// Restores paging latch value from the snapshot. In contrast to the `write_7ffd`,
+    /// it is not affected by the paging lock of the previously running program
+    pub fn load_7ffd(&mut self, val: u8) {
+        if self.machine == ZXMachine::Sinclair128K {
+            self.paging_enabled = true;
+        }
+        self.write_7ffd(val);
+    }
+
     pub fn read_7ffd(&self) -> u8 {
         self.current_port_7ffd
     }
